@@ -50,6 +50,7 @@ import (
 	"os"
 	"slices"
 	"sync"
+	"sync/atomic"
 	"time"
 
 	"github.com/ovh/kmip-go"
@@ -370,6 +371,7 @@ type Client struct {
 	dialer            DialerFunc
 	middlewares       []Middleware
 	addr              string
+	closed            atomic.Bool
 }
 
 // Dial establishes a connection to the KMIP server at the specified address using the provided options.
@@ -484,7 +486,12 @@ func (c *Client) Addr() string {
 // Close terminates the client's connection and releases any associated resources.
 // It returns an error if the connection could not be closed.
 func (c *Client) Close() error {
-	return c.conn.Close()
+	c.closed.Store(true)
+	if conn := c.conn; conn != nil {
+		return conn.Close()
+	}
+	// No connection to close: the last reconnection attempt failed.
+	return nil
 }
 
 func (c *Client) reconnect(ctx context.Context) error {
@@ -509,6 +516,9 @@ func (c *Client) reconnect(ctx context.Context) error {
 func (c *Client) doRountrip(ctx context.Context, msg *kmip.RequestMessage) (*kmip.ResponseMessage, error) {
 	c.lock.Lock()
 	defer c.lock.Unlock()
+	if c.closed.Load() {
+		return nil, net.ErrClosed
+	}
 	if c.conn == nil {
 		if err := c.reconnect(ctx); err != nil {
 			return nil, err
@@ -524,6 +534,10 @@ func (c *Client) doRountrip(ctx context.Context, msg *kmip.RequestMessage) (*kmi
 		}
 		if retry <= 0 || (!errors.Is(err, io.EOF) && !errors.Is(err, io.ErrClosedPipe)) {
 			return nil, err
+		}
+		if c.closed.Load() {
+			// The client has been closed while the call was pending: do not reconnect.
+			return nil, net.ErrClosed
 		}
 		if err := c.reconnect(ctx); err != nil {
 			return nil, err
